@@ -28,8 +28,11 @@ import props as PROPS  # noqa: E402
 
 LEDGER = os.path.join(VERIF, 'baseline', 'obligations.json')
 KNOWN = os.path.join(VERIF, 'known_findings.txt')
-REPLAYS = os.path.join(VERIF, 'replays')
-EVID = os.path.join(VERIF, 'evidence')
+# a run against a scratch copy of the repository (VERIF_REPO + VERIF_GEN_DIR: seeded-change / refactoring experiments) keeps its evidence and
+# replay files with the scratch copy: /verif/evidence only ever describes /repo itself
+_OUT = os.environ.get('VERIF_GEN_DIR') if os.environ.get('VERIF_REPO') and os.environ.get('VERIF_GEN_DIR') else VERIF
+REPLAYS = os.path.join(_OUT, 'replays')
+EVID = os.path.join(_OUT, 'evidence')
 
 
 def tag_props(tag):
@@ -275,6 +278,12 @@ def main(argv):
                     notes.append('%s: %s failed in the first run (%s: %s) but verifies completely in another sound configuration (loop_isolation(false) / other seed, 3x rlimit): discharged'
                                  % (un, fn, d['kind'], ','.join(d['tags']) or 'untagged'))
                     continue
+            if ov and ov[0] in meta.get('imprecise', {}):
+                # unsupported construct (accepted by Verus but encoded imprecisely): a failure here says nothing about the code
+                if pid in ov[1].get('props', []) or any(t and pid in tag_props(t) for t, _ in ov[1]['ensures']) \
+                        or (fn and fn.split('::')[-1] in reach.setdefault(un, helper_reach(meta, r['path'], pid))):
+                    undecided.append('%s: %s contains %s; %s failed there and is not trusted' % (un, fn, meta['imprecise'][ov[0]], ','.join(d['tags']) or d['kind']))
+                continue
             if d['kind'] == 'resource':
                 if ov and (pid in ov[1].get('props', []) or any(pid in tag_props(t or '') for t, _ in ov[1]['ensures'] if t)):
                     undecided.append('%s: resource limit in %s' % (un, fn))
